@@ -133,7 +133,10 @@ func newWorld(tag string, fork bool) (*world, error) {
 		return nil, err
 	}
 	x.w = w
-	// engine.NewWorld opened block 1 with a pointer-derived hash; re-open it with a history-derived one
+	// engine.NewWorld opened block 1 with a pointer-derived hash; re-open it with a history-derived one, at round
+	// 100: in reward round 0 (rounds < block_reward.trigger_period) a passed challenge is rejected ("can't get
+	// blobber reward from partition list") because a fresh blobber's RewardRound.StartRound is 0 as well
+	w.Round = 100
 	x.reopenBlock()
 	return x, nil
 }
@@ -256,10 +259,10 @@ func b2i(b bool) int {
 }
 
 // render: the canonical accounting line compared with the Lean model (absent nodes are omitted).
-//   W=<wallet> | A<k>:<owner>:<exp>:<wp>:<cp or ->:<mtc>:<mb>:<used>[b,size,price,cv,used,offer;...] ... | B<i>:cap:allocated:saved:dead:price S:offers:stake:rewards:dead ... | V<i> S:... | R<j>:bal | C<j>:balance
+//   W=<wallet> T=<now> | A<k>:<owner>:<exp>:<wp>:<cp or ->:<mtc>:<mb>:<used>[b,size,price,cv,used,offer;...] ... | B<i>:cap:allocated:saved:dead:price S:offers:stake:rewards:dead ... | V<i> S:... | R<j>:bal | C<j>:balance
 func (x *world) render(s *snap) string {
 	var sb strings.Builder
-	fmt.Fprintf(&sb, "W=%d", s.Wallet)
+	fmt.Fprintf(&sb, "W=%d T=%d", s.Wallet, int64(x.w.Now))
 	sb.WriteString(" |")
 	for k, a := range s.S.Allocs {
 		if !a.Present && !a.CPPresent {
